@@ -1137,7 +1137,7 @@ class _Ctx:
     def inline_statement_call(self, e: ast.Call, st: State, callee: FuncInfo, tgt: CallTarget):
         """Walk the callee's body in place of the call: returns [(state, returned term)]."""
         f = e.func
-        args = [self.ev(a, st) for a in e.args]
+        args = self._splice_star([self.ev(a, st) for a in e.args])
         kw = {k.arg if k.arg is not None else '**': self.ev(k.value, st) for k in e.keywords}
         recv = None
         if isinstance(f, ast.Attribute):
@@ -2872,6 +2872,17 @@ class _Ctx:
     def ex_Lambda(self, e, st):
         return Opaque('lambda@%d' % e.lineno)
 
+    @staticmethod
+    def _splice_star(args):
+        """f(*t) for a tuple display t = (a, b) known on this path is f(a, b)."""
+        out = []
+        for a in args:
+            if isinstance(a, App) and a.fn == '*' and len(a.args) == 1 and isinstance(strip_at(a.args[0]), TupleT):
+                out.extend(strip_at(a.args[0]).items)
+            else:
+                out.append(a)
+        return out
+
     def ex_Starred(self, e, st):
         return App('*', (self.ev(e.value, st),))
 
@@ -3469,7 +3480,7 @@ class _Ctx:
                         ast.fix_missing_locations(e2)
                         e2._unpartial = True
                         return self.ex_Call(e2, st)
-        args = [self.ev(a, st) for a in e.args]
+        args = self._splice_star([self.ev(a, st) for a in e.args])
         kw = {k.arg if k.arg is not None else '**': self.ev(k.value, st) for k in e.keywords}
         # operator.lt(a, b) and friends are the comparisons they name
         if not kw and len(args) in (1, 2) and isinstance(f, (ast.Attribute, ast.Name)):
